@@ -5,6 +5,9 @@ PATCH="$1"; shift
 cd /repo || exit 2
 if [ -n "$(git status --porcelain)" ]; then echo "/repo not clean" >&2; exit 2; fi
 git apply "$PATCH" || { echo "patch does not apply" >&2; exit 2; }
+# a try must not leave its verdicts behind: evidence/ and replay/ describe the UNCHANGED tree and are committed
+SNAP=$(mktemp -d /verif/scratch/snap_XXXXXX)
+cp -a /verif/evidence "$SNAP/evidence" 2>/dev/null; cp -a /verif/replay "$SNAP/replay" 2>/dev/null
 for id in "$@"; do
   out=$(cd /verif && ./check $id --tier ${TIER:-quick} 2>&1); code=$?
   echo "--- $id exit=$code"
@@ -17,3 +20,8 @@ PY
   fi
 done
 git -C /repo checkout -- . ; git -C /repo status --porcelain
+# the replay files of the try stay readable under scratch/last_try_replay; evidence/ and replay/ are restored
+rm -rf /verif/scratch/last_try_replay; cp -a /verif/replay /verif/scratch/last_try_replay 2>/dev/null
+[ -d "$SNAP/evidence" ] && { rm -rf /verif/evidence; mv "$SNAP/evidence" /verif/evidence; }
+[ -d "$SNAP/replay" ] && { rm -rf /verif/replay; mv "$SNAP/replay" /verif/replay; }
+rm -rf "$SNAP"
